@@ -45,12 +45,14 @@ RULE = ('introspected public callables x 2-3 synthesised argument sets each (des
         'callable x argument variant')
 ASSUMPTIONS = ['callables the synthesiser cannot call are reported under coverage.unreached and weaken the claim']
 REQUIRED = ['check:arguments_unchanged', 'check:readonly_arguments', 'check:result_independent',
-            'check:inplace_on_result_leaves_source', 'check:inplace_on_source_leaves_result', 'callables_reached']
+            'check:inplace_on_result_leaves_source', 'check:inplace_on_source_leaves_result', 'callables_reached',
+            'suite_calls_monitored']
+INCONCLUSIVE_IF = ['suite_unavailable']
 REACH = ['RDMs.subset', 'RDMs.subsample_pattern', 'sqrt_transform', 'geodesic_transform', 'compare', 'calc_rdm',
          'calc_rdm_unbalanced', 'cov_from_measurements', 'pool_rdm', 'fit_regress', 'eval_fixed', 'eval_bootstrap',
          'rescale', 'from_partials', 'concat', 'RDMs.save', 'Dataset.subset_obs', 'TemporalDataset.time_as_channels',
          'merge_datasets', 'ModelWeighted.predict_rdm', 'bootstrap_sample']
-FAIL_KEYS = ['callable', 'what', 'op']
+FAIL_KEYS = ['callable', 'what', 'op', 'suite_check']
 TIME_BUDGET = {'quick': 100, 'thorough': 900}
 
 ACCESSORS = {'RDMs.get_vectors', 'RDMs.to_dict', 'Dataset.to_dict', 'TemporalDataset.to_dict', 'DatasetBase.to_dict',
@@ -196,7 +198,8 @@ def recipes():
     R['calc_rdm_poisson_cv'] = lambda k: ([k.dataset()], {'descriptor': 'cond', 'cv_descriptor': 'fold'})
     R['calc_rdm_movie'] = lambda k: ([k.temporal()], {'descriptor': 'cond', 'method': 'euclidean'})
     R['calc_rdm_unbalanced'] = lambda k: ([k.dataset()], {'descriptor': 'cond',
-                                                          'method': ['euclidean', 'correlation', 'crossnobis'][k.variant % 3],
+                                                          'method': ['crossnobis', 'correlation', 'crossnobis'][k.variant % 3],
+                                                          # variant 0: cross-validated method without fold descriptor
                                                           'cv_descriptor': 'fold' if k.variant % 3 == 2 else None})
     R['calc_one_similarity'] = lambda k: ([k.dataset().subset_obs('cond', 0), k.dataset().subset_obs('cond', 1),
                                            np.arange(3), np.arange(3)], {'method': 'euclidean'})
@@ -532,7 +535,55 @@ def run_callable(ctx, short, fn, cls, builder, variant):
         kit.cleanup()
 
 
+def suite_workload(ctx):
+    """the repository's own test-suite as a workload, with the monitors of vlib/suite_monitor.py switched on"""
+    import json
+    import subprocess
+    import sys
+    from vlib import env
+    root = os.path.dirname(env.src_root())
+    if not os.path.isdir(os.path.join(root, 'tests')):
+        ctx.count('suite_unavailable')
+        ctx.notes.append(f'no tests directory beside {env.src_root()}')
+        return
+    tmp = tempfile.mkdtemp(prefix='verif-c12-suite-')
+    out = os.path.join(tmp, 'suite.json')
+    try:
+        e = dict(os.environ, VERIF_SUITE_OUT=out)
+        res = subprocess.run([sys.executable, '-m', 'pytest', '-q', '-p', 'no:cacheprovider', '-p', 'vlib.suite_monitor',
+                              '--timeout=900', '--continue-on-collection-errors', '-x' if False else '-q', 'tests'],
+                             cwd=root, env=e, capture_output=True, text=True, timeout=1500)
+        if not os.path.exists(out):
+            ctx.count('suite_unavailable')
+            ctx.notes.append('suite run wrote no monitor state: ' + (res.stdout + res.stderr)[-400:])
+            return
+        st = json.load(open(out))
+    except subprocess.TimeoutExpired:
+        ctx.count('suite_unavailable')
+        ctx.notes.append('suite run exceeded its watchdog')
+        return
+    finally:
+        shutil.rmtree(tmp, ignore_errors=True)
+    ctx.count('suite_calls_monitored', st['calls'])
+    ctx.count('suite_tests_run', st['tests'])
+    ctx.count('suite_tests_passed', sum(1 for v in st['outcomes'].values() if v == 'passed'))
+    ctx.count('suite_callables_seen', len(st['by_callable']))
+    ctx.count('suite_invariant_evaluations', st['invariants'])
+    ctx.count('suite_fingerprint_failed', st['fp_failed'])
+    ctx.evaluations += st['calls']
+    for short, n in st['by_callable'].items():
+        key = 'suite_call|' + json.dumps({'callable': short})
+        ctx.sigs[key] = ctx.sigs.get(key, 0) + n
+    for v in st['violations']:
+        what = {'suite:arguments_unchanged': 'argument_modified', 'suite:result_independent': 'shared_memory',
+                'suite:class_invariant': 'class_invariant'}.get(v['check'], v['check'])
+        ctx.fail('suite_workload', dict(callable=v['callable'], what=what, suite_check=v['check']),
+                 f"{v['msg']} (during {v['test']})", dict(test=v['test'], callable=v['callable']))
+
+
 def run(ctx):
+    if ctx.shard == 0:
+        suite_workload(ctx)
     R = recipes()
     found = discover()
     reached, unreached = [], []
